@@ -379,4 +379,12 @@ def r3_4(ctx: Ctx, rule: str = "R3.4") -> RuleResult:
     return rr
 
 
-RULES = [r3_1, r3_2, r3_3, r3_4]
+def r3_5(ctx: Ctx) -> RuleResult:
+    """The pointer of a match, printed and parsed again, addresses the same member: the reference-token encoder and
+    decoder are inverse and applied in the RFC 6901 order (= R4.1)."""
+    from .c04 import r4_1
+
+    return r4_1(ctx, "R3.5")
+
+
+RULES = [r3_1, r3_2, r3_3, r3_4, r3_5]
